@@ -139,8 +139,11 @@ struct Vector {
 
     /// Appends the `value` as a new element to the end of this vector.
     void push_back(const T &value) {
+        // `value` may refer to an element of this vector; detaching can free the
+        // buffer it lives in, so take a copy first.
+        T copy(value);
         detach(inner->size + 1);
-        new (end()) T(value);
+        new (end()) T(std::move(copy));
         inner->size++;
     }
 
